@@ -494,7 +494,7 @@ pub fn run(tier: Tier) -> CheckResult {
     res.coverage.set("exhaustive", true);
     res.coverage.set("serde_oracle_items", table.len() as u64);
     res.coverage.set("samples", json!([item_source(&all[5]), item_source(&all[all.len() - 3])]));
-    res.coverage.set("rule", "items: for each of the 15 container settings (none + 8 rename_all conventions + rename_all(serialize, deserialize) in both orders + rename_all_fields alone and beside rename_all [enums] + rename_all split over two attributes with deny_unknown_fields / a container rename whose value is \"rename_all\") structs with 12 field identifiers (incl. words that start with a digit and non-ASCII identifiers, which serde upper-cases per ASCII only) and enums with 9 variant identifiers (three of them with underscores: X86_64, Utf_8, RISC_V; unit variants; plus enums with a tuple and a struct variant, whose literal is still the wire name; enum groups also under a configured default_field_case), one designated member carrying each of 19 (fields) / 8 (variants) attribute sets (rename values, rename(serialize, deserialize) in both orders and serialize-only, skip, skip_serializing_if, default, alias=\"skip\", rename=\"rename_all\", combined and separate attributes in both orders, skip_serializing, skip_deserializing); oracle for names = REAL serde: the same source text is compiled with serde_derive in the ttv-fixtures crate, serialised and read back; oracle for presence = the property's rule (absent iff plain skip); compared with the keys / literals parsed from the generated declaration in both modes (in process; and, for the first three container settings, through the real binary with a configuration file - standalone and tauri.conf.json section - that leaves the naming settings out). distinct_nontrivial = distinct (convention, kind, identifier, attribute set, mode) coordinates covered.");
+    res.coverage.set("rule", "[round 7: 25 field and 12 variant attribute sets incl. wire names that differ from a sibling only in letter case and wire names that read as numeric literals (0x10, 1e3, 1_000); numeric-literal keys are read as JavaScript reads them] items: for each of the 15 container settings (none + 8 rename_all conventions + rename_all(serialize, deserialize) in both orders + rename_all_fields alone and beside rename_all [enums] + rename_all split over two attributes with deny_unknown_fields / a container rename whose value is \"rename_all\") structs with 12 field identifiers (incl. words that start with a digit and non-ASCII identifiers, which serde upper-cases per ASCII only) and enums with 9 variant identifiers (three of them with underscores: X86_64, Utf_8, RISC_V; unit variants; plus enums with a tuple and a struct variant, whose literal is still the wire name; enum groups also under a configured default_field_case), one designated member carrying each of 19 (fields) / 8 (variants) attribute sets (rename values, rename(serialize, deserialize) in both orders and serialize-only, skip, skip_serializing_if, default, alias=\"skip\", rename=\"rename_all\", combined and separate attributes in both orders, skip_serializing, skip_deserializing); oracle for names = REAL serde: the same source text is compiled with serde_derive in the ttv-fixtures crate, serialised and read back; oracle for presence = the property's rule (absent iff plain skip); compared with the keys / literals parsed from the generated declaration in both modes (in process; and, for the first three container settings, through the real binary with a configuration file - standalone and tauri.conf.json section - that leaves the naming settings out). distinct_nontrivial = distinct (convention, kind, identifier, attribute set, mode) coordinates covered.");
     res.assumptions = vec!["skip on enum variants is not in the alphabet (the statement defines absence for fields only)".into()];
     res
 }
